@@ -29,13 +29,16 @@ var vhPerms3 = [][3]int{{0, 1, 2}, {0, 2, 1}, {1, 0, 2}, {1, 2, 0}, {2, 0, 1}, {
 
 // vhHistory3: three valid vertices above genesis G->A:100. shape 0: chain P<-C1<-C2;
 // shape 1: C2 takes (P, C1); shape 2: P and C1 are siblings on G, C2 takes both.
+var vhTimeOrder int
+
 func vhHistory3(shape int) (l *vhLedger, vs []*Vertex, parents [][2]int) {
+	vhTimeOrder = verifrt.Choose("creation-time-order", 3)
 	l = vhGenesisLedger("A", spice.New(100, 0))
 	g := l.recs[0].v
 	mk := func(i int, iss, rcv string) *Vertex {
 		v := vhTransfer(i, iss, rcv, spice.New(1, 0), nil, vhPeerAddr, uint64(50+i))
-		// creation times are arbitrary (clock skew between nodes): symbolic within a small window
-		sec := verifrt.NondetInt("created"+verifrt.Itoa(i), 0, 3)
+		// creation times are arbitrary (clock skew between nodes): equal, increasing or decreasing along the history
+		sec := []int{0, i, 5 - i}[vhTimeOrder]
 		v.CreatedAt = time.Unix(1700000000+int64(sec), 0)
 		return v
 	}
